@@ -804,7 +804,7 @@ pub(crate) fn run(opts: &Opts, report: &mut Report) {
                 .unwrap_or(0);
             let mut old_sim = Some(probe);
             for i in 0..n_filters {
-                let (mut sim, _) = c10::build_on(&env, &w, scn, old_sim.take());
+                let (mut sim, _) = build_with(&env, &w, params, scn, old_sim.take());
                 let pos = match sim.queue.iter().position(|m| kind_of(m) == "BlockFilters") {
                     Some(p) => p,
                     None => break,
@@ -824,6 +824,9 @@ pub(crate) fn run(opts: &Opts, report: &mut Report) {
                 );
                 let forged = real.as_advanced_builder().transaction(extra.clone()).build();
                 let mut hashes: Vec<packed::Byte32> = m.block_hashes().into_iter().collect();
+                if i >= hashes.len() {
+                    break;
+                }
                 hashes[i] = forged.hash();
                 let msg = packed::BlockFilterMessage::new_builder().set(m.clone().as_builder().block_hashes(hashes.pack()).build()).build();
                 let r = crate::verif::props::panics::catch(|| {
